@@ -237,27 +237,28 @@ class C19(Check):
         from inference.c_revision_model import CRevisionModel
 
         alpha, first, maxdepth = payload
-        idx_of = [4, 0, 7, 2]
+        idx_of = [4, 0, 4, 2]     # members 0 and 2 share index 4: an index can be re-used for a DIFFERENT conditional after removal
         ops = [("add", j) for j in range(4)] + [("rm", j) for j in range(4)]
         expected = {}
 
-        def run_seq(seq):
+        def run_seq(seq, interleave=False):
             m = CRevisionModel(mk_custom(sig, table), [])
             present = []
             for op, j in seq:
                 if op == "add":
-                    if j in present:
+                    if any(idx_of[k] == idx_of[j] for k in present):
                         try:
                             m.add_conditional(mkrev([alpha[j]], [idx_of[j]])[0])
-                            return None, "duplicate add accepted"
+                            return None, "add with an index that is already present accepted"
                         except ValueError:
                             continue
                     m.add_conditional(mkrev([alpha[j]], [idx_of[j]])[0])
                     present.append(j)
+                    if interleave:
+                        m.to_compilation()       # observing the model between operations must not change later results
                 else:
                     m.remove_conditional(idx_of[j])
-                    if j in present:
-                        present.remove(j)
+                    present[:] = [k for k in present if idx_of[k] != idx_of[j]]
             return (m, present), None
 
         def invariant(m, present):
@@ -272,7 +273,7 @@ class C19(Check):
             for seq in itertools.product(ops, repeat=d):
                 if seq[0] != ops[first]:
                     continue
-                st, err = run_seq(seq)
+                st, err = run_seq(seq, interleave=(ntr % 2 == 1))
                 ntr += 1
                 res.evals += 1
                 if err:
